@@ -17,6 +17,18 @@ PROP = dict(
           "conversions, foreach/foreach2/range-for; == and != between two addressed Vars in both orders, against literals, against "
           "own copies/clones, and against a freshly built Var with the same content in other representations (INT<->NUMBER<->FLOAT "
           "where exact, inline<->heap strings, recursively through containers) with and without one changed leaf. "
+          "Also: sstr = two string assignments in a row through generated const char*/String overloads, mostly a shorter inline "
+          "string (0..6 bytes, incl. proper prefixes and the empty string) over a longer inline one (1..7 bytes), followed by Var == Var "
+          "against freshly built Vars of the same text in both orders, clone/copy, contains() of the parent array and the whole slot "
+          "against a freshly built tree; big = a 130..400-element array / 55..200-key object (built from Array<int>/Dic<int>, or grown "
+          "by << / [key]) assigned to an addressed Var; rmat 'down to a few' and rmmany (one-by-one removals from the front / back / "
+          "alternating down to 0..4 elements); bigshare = a scenario on private Vars: such a large container is shared by 2..4 "
+          "Vars (copy-constructed, assigned, as element of a fresh array, as property of a fresh object) plus a clone, elements "
+          "are removed through ONE handle (one removeAt(i, n) or single removals, remove(key)) down to 0..5, every handle is "
+          "read back completely after every step (length, all elements, sharing, reference count, Var == Var between handles), "
+          "a write and a second removal go through another handle, and the handles are dropped in a generated order. "
+          "Every string leaf visited by the walker is additionally compared Var == Var (both orders, and !=) with a Var "
+          "built at that moment from the model's text. "
           "Oracle: a reference value graph in plain STL (scalars/strings by value, arrays/objects as nodes shared by copies, clone deep). "
           "After EVERY op all four slots and all registered clones are walked through the const accessors and compared with the model: "
           "type, value, length, key order, and sharing (Vars that the model says share a container must report the same storage, "
